@@ -2,7 +2,9 @@
 // add-only hook export_c13_verif.go, eventAndMeasurementsDistance and
 // bruteForceAlignedEventLogs) against Model/EventLogAlign.v, plus the independent
 // oracle of the property: conservation of both event sequences, truthful
-// per-entry verdicts (recomputed with Go crypto), identical log => no issues, no panic.
+// per-entry verdicts (recomputed with Go crypto; on edit scripts with a ground truth the
+// verdicts of the script; no mismatch entry of two unrelated events while the settings
+// allow to leave both out), identical log => no issues, no panic.
 package main
 
 import (
@@ -776,6 +778,7 @@ type genCtx struct {
 	evs     []*tpmeventlog.Event
 	ops     []string
 	hp      []hpEntry
+	truth   *scriptTruth // when set: the log was made by an edit script whose verdicts are known (scriptCase)
 	want    *uint64 // when set: the PCR0_DATA entry was re-digested with this register and the search must find it
 	wantNot *uint64 // when set: ... with this register, which the settings exclude: the entry must stay a mismatch
 }
@@ -1670,6 +1673,43 @@ func doCase(c *gal.Ctx, kind string, g *genCtx, nilLog bool) {
 			}
 		}
 	}
+	// 2b. "mismatch" says that ONE event is present on both sides and differs; a recorded and a simulated event that
+	// agree in neither type nor digest are not one event: they are an event only recorded and an event only simulated
+	// (the documented pairing rule: an event is left out if it matches by neither type nor digest), and must be
+	// reported as unexpected + missing whenever DisabledEventsMaxDistance still allows one more recorded event to be
+	// left out.  The search varies the recorded side by at most DisabledEventsMaxDistance entries around the ones it
+	// must leave out anyway (the surplus of recorded events); leaving out one more is within that for sure when
+	// (left out now) + surplus + 1 <= DisabledEventsMaxDistance.
+	{
+		unexpected := 0
+		for _, e := range o.Entries {
+			if e.Calc == -1 {
+				unexpected++
+			}
+		}
+		surplus := len(exp) - len(sims)
+		if surplus < 0 {
+			surplus = 0
+		}
+		if budget := int(g.st.DisabledEventsMaxDistance) - unexpected - surplus; budget >= 1 {
+			for k, e := range o.Entries {
+				if e.Exp < 0 || e.Calc < 0 || e.Status != 2 {
+					continue
+				}
+				r, s := g.evs[e.Exp], &b.tp.EventLog[e.Calc]
+				if r.Type != s.Type && !bytes.Equal(r.Digest.Digest, s.Digest) {
+					c.OracleFail(idx, fmt.Sprintf("entry %d is marked mismatch, but its recorded event %d (type %#x) and its simulated event %d (type %#x) agree in neither type nor digest: they are one event only recorded and one only simulated, and DisabledEventsMaxDistance %d allows to leave out one more recorded event (%d left out, %d more recorded than simulated events); want unexpected + missing (the statuses of the result are %v)",
+						k, e.Exp, uint32(r.Type), e.Calc, uint32(s.Type), g.st.DisabledEventsMaxDistance, unexpected, surplus, statusesOf(o.Entries)),
+						site+":bruteForceAlignedEventLogs", descr)
+					return
+				}
+			}
+		}
+	}
+	// 2c. edit scripts with a ground truth (see scriptCase): the verdicts are the ones of the script
+	if g.truth != nil && !g.truthJudge(c, idx, o, descr, site) {
+		return
+	}
 	if len(unjustified) > 0 {
 		what := fmt.Sprintf("entries %v are marked matching but PCR0_DATA with the returned ACM_POLICY_STATUS %#x does not hash to their recorded digests", unjustified, *o.Reg)
 		if repaired >= 2 && len(unjustified) < repaired {
@@ -1746,6 +1786,211 @@ func doCase(c *gal.Ctx, kind string, g *genCtx, nilLog bool) {
 		}
 	}
 	c.OracleOK()
+}
+
+// ---------------------------------------------------------------- edit scripts with a ground truth
+
+// A recorded log made from the simulated one by a script whose meaning is not open to interpretation: the simulated
+// events of the bank have pairwise different digests, nothing is reordered, and every recorded entry is one of
+//   kept       the entry recorded for a simulated event, unchanged                          -> match, with that event
+//   retyped    ... with another event type (a type no simulated event of the bank has)      -> match (digests are equal)
+//   re-digested ... with a fresh random digest, type kept                                   -> mismatch (present on both sides, differs)
+//   replaced   ... with a foreign type AND a fresh digest: nothing of the event is left     -> only recorded + only simulated
+//   inserted   a foreign entry (foreign type, fresh digest)                                 -> only recorded
+// and a simulated event whose entry was deleted (or replaced) is only simulated.
+type scriptTruth struct {
+	script  string
+	status  map[*tpmeventlog.Event]int // recorded entry of the bank -> its verdict (1 match, 2 mismatch, 3 unexpected)
+	origin  map[*tpmeventlog.Event]int // recorded entry -> simulated event (index in tp.EventLog) it stands for, -1 none
+	missing map[int]bool               // simulated events no recorded entry stands for
+	leftOut int                        // recorded entries that stand for no simulated event
+}
+
+var statusNames = map[int]string{1: "match", 2: "mismatch", 3: "unexpected", 4: "missing"}
+
+func statusesOf(es []entryObs) []string {
+	r := make([]string, len(es))
+	for i, e := range es {
+		r[i] = statusNames[e.Status]
+	}
+	return r
+}
+
+// The verdicts of the script are demanded when the settings allow them: DisabledEventsMaxDistance bounds how many
+// recorded entries the alignment may leave out beyond / around the surplus of recorded entries, so with
+// (entries the script leaves without a simulated event) + (surplus) <= DisabledEventsMaxDistance every such entry can
+// be left out.  When the recorded log is the shorter one, the alignment first leaves out simulated events to even out
+// the amounts and only adds to them later: the verdicts are demanded when the simulated events reported missing are
+// among the ones the script left without an entry (otherwise the case is counted, not judged).
+func (g *genCtx) truthJudge(c *gal.Ctx, idx int, o runObs, descr interface{}, site string) bool {
+	t, b := g.truth, g.b
+	nExp, nSim := len(bankPos(g.evs, g.alg)), len(b.simIdx(g.alg))
+	surplus := nExp - nSim
+	if surplus < 0 {
+		surplus = 0
+	}
+	if int(g.st.DisabledEventsMaxDistance) < t.leftOut+surplus {
+		c.Count("edit script: DisabledEventsMaxDistance below what the script needs (its verdicts are not demanded)")
+		return true
+	}
+	nMissing := 0
+	for _, e := range o.Entries {
+		if e.Exp == -1 && e.Calc >= 0 {
+			nMissing++
+			if nExp < nSim && !t.missing[e.Calc] {
+				c.Count("edit script: a simulated event that has its recorded entry is left out (verdicts of the script not demanded)")
+				return true
+			}
+		}
+	}
+	c.Count("edit script: verdicts of the script demanded")
+	site += ":bruteForceAlignedEventLogs / alignLogs"
+	for k, e := range o.Entries {
+		if e.Exp < 0 {
+			continue
+		}
+		r := g.evs[e.Exp]
+		want, have := t.status[r]
+		if !have {
+			continue
+		}
+		if e.Status != want {
+			c.OracleFail(idx, fmt.Sprintf("edit script [%s]: entry %d, recorded event %d, is reported as %s; the script makes it %s (statuses of the result: %v; DisabledEventsMaxDistance %d suffices for the %d recorded entries the script leaves without a simulated event)",
+				t.script, k, e.Exp, statusNames[e.Status], statusNames[want], statusesOf(o.Entries), g.st.DisabledEventsMaxDistance, t.leftOut), site, descr)
+			return false
+		}
+		if want == 1 && e.Calc != t.origin[r] {
+			c.OracleFail(idx, fmt.Sprintf("edit script [%s]: entry %d pairs recorded event %d with simulated event %d, it was recorded for simulated event %d", t.script, k, e.Exp, e.Calc, t.origin[r]), site, descr)
+			return false
+		}
+	}
+	if nMissing != len(t.missing) {
+		c.OracleFail(idx, fmt.Sprintf("edit script [%s]: %d simulated events are reported missing, the script leaves %d without a recorded entry (statuses of the result: %v)", t.script, nMissing, len(t.missing), statusesOf(o.Entries)), site, descr)
+		return false
+	}
+	return true
+}
+
+// ops: one letter per edited entry - D delete, X replace (foreign type and fresh digest), I insert a foreign entry,
+// R re-digest, T retype; budget: DisabledEventsMaxDistance relative to what the script needs
+func scriptCase(c *gal.Ctx, b *boot, alg tpm2.Algorithm, ops string, budget int) bool {
+	rng := c.Rng
+	sims := b.simIdx(alg)
+	seen := map[string]bool{}
+	types := map[tpmeventlog.EventType]bool{}
+	for _, i := range sims {
+		seen[string(b.tp.EventLog[i].Digest)] = true
+		types[b.tp.EventLog[i].Type] = true
+	}
+	onEntries := len(ops) - strings.Count(ops, "I")
+	if len(seen) != len(sims) || onEntries > len(sims) || b.simErr(alg) {
+		return false // simulated digests of the bank not pairwise different, or fewer entries than operations: another boot
+	}
+	var foreign []tpmeventlog.EventType
+	for _, t := range eventTypes {
+		if !types[t] {
+			foreign = append(foreign, t)
+		}
+	}
+	fresh := func() []byte {
+		d := make([]byte, hashSize(alg))
+		rng.Read(d)
+		return d
+	}
+	g := newGen(c, b, alg)
+	t := &scriptTruth{script: ops, status: map[*tpmeventlog.Event]int{}, origin: map[*tpmeventlog.Event]int{}, missing: map[int]bool{}}
+	for _, i := range sims {
+		t.status[g.evs[i]], t.origin[g.evs[i]] = 1, i
+	}
+	targets := rng.Perm(len(sims))
+	deleted := map[*tpmeventlog.Event]bool{}
+	inserts := 0
+	for _, op := range ops {
+		if op == 'I' {
+			inserts++
+			continue
+		}
+		si := sims[targets[0]]
+		targets = targets[1:]
+		e := g.evs[si]
+		switch op {
+		case 'D':
+			deleted[e] = true
+			delete(t.status, e)
+			t.missing[si] = true
+			g.ops = append(g.ops, fmt.Sprintf("delete the entry of simulated event %d", si))
+		case 'X':
+			e.Type, e.Digest.Digest = foreign[rng.Intn(len(foreign))], fresh()
+			t.status[e], t.origin[e] = 3, -1
+			t.missing[si] = true
+			t.leftOut++
+			g.ops = append(g.ops, fmt.Sprintf("entry of simulated event %d replaced: type %#x (no simulated event has it) and a fresh digest", si, uint32(e.Type)))
+		case 'R':
+			e.Digest.Digest = fresh()
+			t.status[e] = 2
+			g.ops = append(g.ops, fmt.Sprintf("entry of simulated event %d re-digested (fresh digest, type kept)", si))
+		case 'T':
+			e.Type = foreign[rng.Intn(len(foreign))]
+			g.ops = append(g.ops, fmt.Sprintf("entry of simulated event %d retyped to %#x (digest kept)", si, uint32(e.Type)))
+		}
+	}
+	var kept []*tpmeventlog.Event
+	for _, e := range g.evs {
+		if !deleted[e] {
+			kept = append(kept, e)
+		}
+	}
+	g.evs = kept
+	for ; inserts > 0; inserts-- {
+		e := &tpmeventlog.Event{PCRIndex: 0, Type: foreign[rng.Intn(len(foreign))], Digest: &tpmeventlog.Digest{HashAlgo: alg, Digest: fresh()}}
+		if rng.Intn(2) == 0 {
+			e.Data, _ = genEventData(rng, b.isz)
+		}
+		at := rng.Intn(len(g.evs) + 1)
+		g.insertAt(at, e)
+		t.status[e], t.origin[e] = 3, -1
+		t.leftOut++
+		g.ops = append(g.ops, fmt.Sprintf("foreign entry (type %#x, fresh digest) inserted at %d", uint32(e.Type), at))
+	}
+	surplus := len(bankPos(g.evs, alg)) - len(sims)
+	if surplus < 0 {
+		surplus = 0
+	}
+	md := t.leftOut + surplus + budget
+	if md < 0 {
+		md = 0
+	}
+	g.st.DisabledEventsMaxDistance = uint64(md)
+	g.ops = append(g.ops, fmt.Sprintf("DisabledEventsMaxDistance %d (the script leaves %d recorded entries without a simulated event, the recorded log has %d entries more than the simulated one)", md, t.leftOut, surplus))
+	g.truth = t
+	doCase(c, "edit-script", g, false)
+	// the same log through the search alone (the model of the search is exact about which results are optimal)
+	var exp []*tpmeventlog.Event
+	for _, e := range g.evs {
+		if selected(e, alg) {
+			exp = append(exp, e)
+		}
+	}
+	searchCase(c, b, alg, exp, uint64(md))
+	return true
+}
+
+// every multiset of n operations
+func scriptsOf(n int) []string {
+	var r []string
+	var rec func(prefix string, from int)
+	letters := "DXIRT"
+	rec = func(prefix string, from int) {
+		if len(prefix) == n {
+			r = append(r, prefix)
+			return
+		}
+		for i := from; i < len(letters); i++ {
+			rec(prefix+string(letters[i]), i)
+		}
+	}
+	rec("", 0)
+	return r
 }
 
 // the alignment the search hook finds for the recorded log (when the call gets that far)
@@ -2377,6 +2622,42 @@ func main() {
 		doCase(c, "digest-search", g, false)
 	}
 
+	// ---- edit scripts with a ground truth: every multiset of one to three operations (thorough: four; quick: a
+	// sample of the four-operation ones) out of delete / replace / insert / re-digest / retype, on entries drawn per
+	// case, with DisabledEventsMaxDistance one below, at, and one or two above what the script needs
+	{
+		var scripts []string
+		for n := 1; n <= 3; n++ {
+			scripts = append(scripts, scriptsOf(n)...)
+		}
+		four := scriptsOf(4)
+		if c.Thorough() {
+			scripts = append(scripts, four...)
+		} else {
+			for _, i := range c.Rng.Perm(len(four))[:24] {
+				scripts = append(scripts, four[i])
+			}
+		}
+		for si, sc := range scripts {
+			for bi, budget := range []int{-1, 0, 1, 2} {
+				if !c.Thorough() && budget == 2 && si%3 != 0 {
+					continue
+				}
+				for rep := 0; rep < c.Scale(1, 4); rep++ {
+					alg := algs[c.Rng.Intn(2)]
+					first := si + bi + rep + c.Rng.Intn(2)
+					done := false
+					for try := 0; try < len(refBoots) && !done; try++ {
+						done = scriptCase(c, refBoots[(first+try)%len(refBoots)], alg, sc, budget)
+					}
+					if !done {
+						c.Count("edit script: no boot has enough simulated events with pairwise different digests for the script")
+					}
+				}
+			}
+		}
+	}
+
 	// ---- random edit scripts of 1..4 operations
 	for k := 0; k < c.Scale(640, 6000); k++ {
 		b := refBoots[c.Rng.Intn(len(refBoots))]
@@ -2469,7 +2750,8 @@ func main() {
 		"pair lists: every list of empty / real pairs up to three pairs (thorough: four) as the event data of every simulated entry, the entry only re-digested (retyped to a parsed type with DisabledEventsMaxDistance 0 where needed) so that it stays paired with its measurement of one, two or three references, plus random longer lists after descriptions; " +
 		"wide records (the two fields of a 16-byte record are arbitrary 64-bit numbers): every address class (first / near the start / inside / last address of the window the image is mapped to; and, with fewer lengths, one below the window, 4 GiB, 0, an offset inside the image file, 2^63 + an address, 2^64 - 1) x every length class (0, 1, up to / one past the image end, image size - 1 / +0 / +1 / x2, the window base, 4 GiB - 1, 4 GiB, 4 GiB - address, 2^63 - 1, 2^63, 2^64 - image size, the lengths with which offset-inside-the-image + length wraps around 2^64 to 0 / 1 / a small number / the image size / the image size + 1, the lengths with which address + length wraps to 0 / a small number / the image size, 2^64 - 1, random 64-bit and 33..63-bit numbers) x both field orders, alone, read after a real pair or before one, alternately on an inserted (unexpected) entry and on an entry that stays paired with its measurement but has another digest, both parsed event types; the harness proper runs under a 4 GiB address-space cap as a child of a supervisor that repeats the reason of a crash (panic in a goroutine of the code under test, Go fatal error such as an allocation of gigabytes) at the end of the output, so that the input recorded before the call is reported; " +
 		"sweeps: every decrement 0..max(limit,GOMAXPROCS)+2 for limits 0..16 and GOMAXPROCS 1..16, bit flips anywhere in PCR0_DATA (register bit 0 / 63 / one / two / three bits; the first bit, the next byte, the last bit, one or two bits behind the register; a register bit together with a bit behind it) under combinatorial strategy off / on with distance 0, 1, 2 and linear limits 0, 2, 8, 128; the oracle re-hashes PCR0_DATA with the returned register for every repaired entry and demands the repair (with that value) whenever the settings promise it (decrement inside the window, or strategy enabled and at most distance register bits differ); settings drawn per case (linear limit incl. negative, combinatorial strategy on in half of the cases with distance 0..2, DisabledEventsMaxDistance 0..4, MaxDigestRangeGuesses 1..300; 20000..1520000 on the digest-search logs, whose unexplained digests (copied EV_SEPARATOR entry, runs of 0x00 / 0xff bytes) are found at many places of the image by several workers at once - the input class of the repaired defect C13-unhash-concurrent-found-digests, whose witness also runs in a child process as a regression check); SHA1 and SHA256 (+ SHA384, unknown and null algorithm, nil and empty log); " +
-		"hook cases: eventAndMeasurementsDistance on balanced/unbalanced bitmaps and short digests, bruteForceAlignedEventLogs on the generated logs; non-trivial = at least one edit operation; distinct = distinct Gallina literal")
+		"edit scripts with a ground truth: every multiset of one to three (quick: a sample of the four-, thorough: every four-) operations out of delete an entry / replace it (foreign type and fresh digest) / insert a foreign entry / re-digest / retype, on entries drawn per case of a boot whose simulated digests are pairwise different, nothing reordered, with DisabledEventsMaxDistance one below, at, one and two above what the script needs - so that the recorded log is shorter, equally long or longer than the simulated one and the alignment has to leave out further entries on BOTH sides after evening out the amounts; the oracle demands the verdicts of the script (inserted / replaced entry unexpected, deleted / replaced event missing, re-digested entry mismatch, kept / retyped entry match with its own event) whenever the settings allow them, and in every case of every kind rejects a mismatch entry whose two events agree in neither type nor digest while DisabledEventsMaxDistance still allows to leave out one more recorded event; the bitmaps of every returned result (and of every hook call) must be a result of the set-level model of the search (minimal distance in the space its phases enumerate); " +
+		"hook cases: eventAndMeasurementsDistance on balanced/unbalanced bitmaps and short digests, bruteForceAlignedEventLogs on the generated logs and on every edit-script log; non-trivial = at least one edit operation; distinct = distinct Gallina literal")
 }
 
 // ---------------------------------------------------------------- probes
